@@ -22,8 +22,14 @@ honest publisher, composing network, the four public constructors of
     from.  Acceptance by the *unchecked* constructors is not compared (the property only requires
     their results to be safe to inspect).
 
+Growth: specs/dns/PkarrOrder.tla models `more_recent_than` (the order behind "keep the newest packet"):
+TLC checks it is a strict total order on (timestamp, payload) and the answer for every ordered pair
+is compared with the real method on real packets (case kind "order").
+
 Mutation self-test (2026-09-22): signature verification removed from `from_bytes`
-(`public_key.verify(..)?` dropped) => VIOLATION kind=accepted_unauthentic; undone => exit 0.
+(`public_key.verify(..)?` dropped) => VIOLATION kind=accepted_unauthentic (from_bytes and
+from_relay_payload accept k1-keyed packets carrying k2's signature); undone => exit 0 (only the known
+finding).  With proposed_fixes/C32.diff applied: exit 0, no KNOWN-FINDING line.
 """
 import json
 
@@ -58,6 +64,9 @@ def run(ctx):
     # code as written: refuted
     ctx.tlc("dns", "Pkarr", cfg="Pkarr.cfg", mode="mc", workers=2, timeout=900, coverage=False,
             constants={"UncheckedValidatesKey": "FALSE", "MaxPublish": 0}, expect_violation="TotalAccessors")
+    # growth beyond C32: the order `more_recent_than` (PkarrOrder.tla): strict total order, expected answer per pair
+    ores = ctx.tlc("dns", "PkarrOrder", cfg="PkarrOrder.cfg", mode="gen", timeout=900, coverage=False)
+    order = {json.dumps([r["a"], r["b"]], sort_keys=True): r["newer"] for r in ores.replays}
     table = {}
     for r in res.replays:
         table.setdefault(pkey(r["pkt"], r["ctor"]), r)
@@ -74,6 +83,7 @@ def run(ctx):
         cases.append({"id": len(cases), "kind": "truncext"})
         cases.append({"id": len(cases), "kind": "pairs", "count": ctx.pick(300, 5000)})
         cases.append({"id": len(cases), "kind": "honest", "count": ctx.pick(200, 2000)})
+        cases.append({"id": len(cases), "kind": "order", "count": 3})
     inp = ctx.write_ndjson("c32.in", cases)
     outp = ctx.path("c32.out")
     ctx.run_bin("vh_dns", ["c32", "--in", inp, "--out", outp], timeout=1800)
@@ -82,6 +92,14 @@ def run(ctx):
     seen_abstract = set()
     for o in obs:
         case = bycase[o["case"]]
+        if o["ctor"] == "order":
+            exp = order[json.dumps([o["a"], o["b"]], sort_keys=True)]
+            ctx.count(case_key=["order", o["a"], o["b"]], nontrivial=o["a"] != o["b"])
+            if o["panic"] is not None or o["newer"] != exp:
+                ctx.report({"kind": "order", "ts": "eq" if o["a"]["ts"] == o["b"]["ts"] else "ne"},
+                           "more_recent_than(%s, %s) = %s, the spec says %s" % (o["a"], o["b"], o["panic"] or o["newer"], exp),
+                           {"case": case, "observed": o})
+            continue
         abs_, ctor = o["abs"], o["ctor"]
         replay = {"case": case if case["kind"] != "abstract" else {"kind": "abstract", "ctor": ctor, "pkt": abs_}, "observed": o}
         if ctor == "from_txt_strings":
